@@ -264,6 +264,9 @@ let handle fields =
       let n = List.length t in
       String.concat " " (List.map (fun k -> string_of_int (int_of_nat k)) (gather (nat_of_int (n + 2)) t (ints roots)))
   | ["verify"; c; e; k; s] -> show_result (fun () -> "") (parse_and_verify (ctx_of_field c) (aenv_of_field e) (k = "var") (ustr_of_field s))
+  | ["reparse"; c; s] ->
+      show_result (fun ((st, t), r2) -> show_stmt st ^ "|" ^ field_of_ustr t ^ "|" ^ show_result show_stmt r2)
+        (reparse (ctx_of_field c) (ustr_of_field s))
   | ["decl"; c; s] -> show_result show_stmt (parse_statement (ctx_of_field c) (ustr_of_field s))
   | ["lstrip"; s] -> field_of_ustr (lstrip (ustr_of_field s))
   | ["rstrip"; s] -> field_of_ustr (rstrip (ustr_of_field s))
